@@ -18,6 +18,15 @@ theorem kernels_traced (fwd : Bool) (start stop len size : Int) :
     Gen.C08.extStart, Gen.C08.extStop, Gen.C08.geoExtStart, Gen.C08.geoExtStop]
   cases fwd <;> simp
 
+/-- the repaired `-` strand start `stop - min len stop` is, over the integers, the shipped `max (stop - len) 0` (the two differ
+only in machine arithmetic: on an unsigned column `stop - len` wraps around before the maximum is taken) -/
+theorem extendK_eq_old (fwd : Bool) (start stop len size : Int) :
+    extendK fwd start stop len size = extendKOld fwd start stop len size := by
+  simp only [extendK, extendKOld]
+  cases fwd
+  · simp only [Bool.false_eq_true, ↓reduceIte]; congr 1; omega
+  · rfl
+
 /-- clipping is intersection with the contig: a base is in the clipped interval iff it is in the interval and in `[0, size)` -/
 theorem clip_perbase (start stop size p : Int) :
     (Gen.C08.clipStart start stop size ≤ p ∧ p < Gen.C08.clipStop start stop size) ↔
